@@ -86,7 +86,13 @@ Definition wfclimb (c : cst) (k : climb) : Prop :=
   | KTop bm => creg c bm = true
   | KCb => True
   end.
-Definition wfinstr (c : cst) (i : instr) : Prop := match i with IClimb k => wfclimb c k | _ => True end.
+Definition wfinstr (c : cst) (i : instr) : Prop :=
+  match i with
+  | IClimb k => wfclimb c k
+  | ILock _ (LPush _ bm _) => creg c bm = true        (* the Waker holds an Arc of its bitmap *)
+  | IYieldH HReserved _ => False                      (* the drop handler is never a harness closure *)
+  | _ => True
+  end.
 
 Definition is_drain (i : instr) : bool := match i with ITopSwap | IBms _ | ILeaves _ _ => true | _ => false end.
 Fixpoint drain_ok (k : list instr) : Prop :=
@@ -105,7 +111,10 @@ Definition main_only (i : instr) : bool :=
   end.
 
 Definition okfinal (i : instr) : Prop :=
-  match i with ILock _ a => match a with LTake => False | _ => True end | _ => False end.
+  match i with ILock _ a => match a with LTake | LPush _ _ _ => False | _ => True end | _ => False end.
+(** [okfinal] for a state: the exit sequence of a piped worker may also contain the drop of its Waker *)
+Definition okfinal_c (c : cst) (i : instr) : Prop :=
+  match i with ILock _ (LPush _ bm _) => creg c bm = true | _ => okfinal i end.
 
 (** ** The slab and its bitmaps (touched by the main thread only) *)
 Fixpoint chain (se : Z -> sentry) (hd : Z) (l : list Z) (endp : Z) : Prop :=
@@ -145,7 +154,7 @@ Record CInv (c : cst) : Prop := {
   i_drain : drain_ok (c_cont c main);
   i_acc : c_acc c <> [] -> In IRun (c_cont c main);
   i_mainonly : forall t, t <> main -> forall i, In i (c_cont c t) -> main_only i = false;
-  i_final : forall t i, In i (c_final c t) -> okfinal i;
+  i_final : forall t i, In i (c_final c t) -> okfinal_c c i;
   i_slab : SInv c }.
 
 (** ** Operations of the core machine *)
@@ -247,7 +256,7 @@ Definition newok (c : cst) (t : tid) (j : instr) : Prop :=
   | IClimb (KLeaf bm a b w) => wfclimb c (KLeaf bm a b w)
   | IClimb _ => False
   | ITopSwap | IBms _ | ILeaves _ _ | IRun | IHandlers _ => False
-  | _ => t <> main -> main_only j = false
+  | _ => wfinstr c j /\ (t <> main -> main_only j = false)
   end.
 
 Definition f_benign (c : cst) (t : tid) (k : list instr) (gn gc : hkind -> bool) : cst :=
@@ -312,7 +321,7 @@ Inductive cstep : cst -> cst -> Prop :=
 | cs_final : forall c t,
     c_cont c t = [] -> cstep c (f_final c t)
 | cs_setfinal : forall c t f,
-    (forall i, In i f -> okfinal i) -> cstep c (f_setfinal c t f)
+    (forall i, In i f -> okfinal_c c i) -> cstep c (f_setfinal c t f)
 | cs_ceq : forall c c1 c2, cstep c c1 -> ceq c1 c2 -> cstep c c2.
 
 
@@ -345,7 +354,9 @@ Proof.
   assert (Hhp : forall h dl, chpend d h dl <-> chpend c h dl) by (intros; unfold chpend; rewrite q_cont0; tauto).
   assert (Hpb : forall x, cpend_bit d x <-> cpend_bit c x) by (intros; unfold cpend_bit; rewrite q_cont0, q_acc0; tauto).
   assert (Hwf : forall i, wfinstr d i <-> wfinstr c i).
-  { intros [k| | | | | | | | | | | | | |]; simpl; try tauto. destruct k; simpl; rewrite ?Hreg; tauto. }
+  { intros [k| | | | | | |m a|m a| | | |h dl| |]; simpl; try tauto.
+    - destruct k; simpl; rewrite ?Hreg; tauto.
+    - destruct a; simpl; rewrite ?Hreg; tauto. }
   constructor.
   - intros h Hh. rewrite <- q_new0 in Hh. destruct (i_new0 h Hh) as [A|[x [A B]]].
     + left. apply Hhp; auto.
@@ -368,7 +379,8 @@ Proof.
   - rewrite <- q_cont0. auto.
   - rewrite <- q_acc0, <- q_cont0. auto.
   - intros t Ht i Hi. rewrite <- q_cont0 in Hi. eauto.
-  - intros t i Hi. rewrite <- q_final0 in Hi. eauto.
+  - intros t i Hi. rewrite <- q_final0 in Hi. apply i_final0 in Hi.
+    destruct i as [k| | | | | | |m a|m a| | | |h dl| |]; simpl in *; auto. destruct a; simpl in *; rewrite ?Hreg; auto.
   - destruct i_slab0. constructor.
     + rewrite <- q_sl0; auto.
     + rewrite <- q_sl0; auto.
